@@ -280,6 +280,8 @@ static void fq_from_be(Fq& out, const uint8_t* be48) {
     out.set(v);
 }
 
+/* Legendre symbol of a base-field element given as a canonical little-endian integer (field arithmetic is the models' trusted base) */
+int jv_fq_legendre(const uint8_t* le48) { Fq v; fq_from_le(v, le48); return v.legendre(); }
 int jv_g1a_from_x(void* outA, const uint8_t* x, int greater) {
     Fq fx; fq_from_le(fx, x);
     G1Affine t;
